@@ -1,5 +1,5 @@
 \* sanity: without the write-all / verify-all / rename order the invariant CopiesWhole must fail
-CONSTANTS NCopies = 2  NChunks = 2  NSaves = 1  Guarded = FALSE
+CONSTANTS NCopies = 2  NChunks = 2  NSaves = 1  WriteFaults = TRUE  VerifyAll = TRUE  Guarded = FALSE
 SPECIFICATION Spec
 INVARIANT CopiesWhole
 CHECK_DEADLOCK FALSE
